@@ -131,16 +131,18 @@ class CCABaseModel(BaseEstimator):
         dim: Hashable | Sequence[Hashable],
     ) -> Self:
         self.n_views_ = len(views)
-        self.use_coslat = _process_parameter(
+        # per-view versions of the parameters (the parameters themselves stay as given,
+        # so that the model can be fitted again with another number of views)
+        self.use_coslat_ = _process_parameter(
             "use_coslat", self.use_coslat, False, self.n_views_
         )
-        self.init_pca_modes = _process_parameter(
+        self.init_pca_modes_ = _process_parameter(
             "init_pca_modes", self.init_pca_modes, 0.75, self.n_views_
         )
 
         # Preprocess the input data
         self.preprocessors = [
-            Preprocessor(with_coslat=self.use_coslat[i], **self._preprocessor_kwargs)
+            Preprocessor(with_coslat=self.use_coslat_[i], **self._preprocessor_kwargs)
             for i in range(self.n_views_)
         ]
         views2D: list[DataArray] = [
@@ -167,7 +169,7 @@ class CCABaseModel(BaseEstimator):
     def _apply_pca(self, views: DataList):
         self.pca_models = []
 
-        n_pca_modes = self._process_init_pca_modes(self.init_pca_modes)
+        n_pca_modes = self._process_init_pca_modes(self.init_pca_modes_)
 
         view_transformed = []
 
@@ -308,7 +310,7 @@ class CCA(CCABaseModel):
         # Check input data
         [assert_not_complex(view) for view in views]
 
-        self.c = _process_parameter("c", self.c, 0, self.n_views_)
+        self.c_ = _process_parameter("c", self.c, 0, self.n_views_)
         eigvals, eigvecs = self._solve_gevp(views)
         self.eigvals = eigvals
         self.eigvecs = eigvecs
@@ -564,7 +566,7 @@ class CCA(CCABaseModel):
                 n_features = feature_coords.size
                 expvar = pc.explained_variance().isel(mode=slice(0, n_features))
                 block = xr.DataArray(
-                    da.diag((1 - self.c[i]) * expvar.data + self.c[i]),
+                    da.diag((1 - self.c_[i]) * expvar.data + self.c_[i]),
                     dims=[self.feature_name + "1", self.feature_name + "2"],
                     coords={
                         self.feature_name + "1": feature_coords.values,
@@ -575,7 +577,7 @@ class CCA(CCABaseModel):
                 blocks.append(block)
 
         else:
-            blocks = [self._apply_E(view, c) for view, c in zip(views, self.c)]
+            blocks = [self._apply_E(view, c) for view, c in zip(views, self.c_)]
 
         D = self._block_diag_dask(blocks, dims_in=["feature1", "feature2"])
 
